@@ -81,8 +81,30 @@ def region_rule(ctx, rid, fn, spec, elem_bytes, capacity, bounds_for=None):
     return nviol
 
 
+def vad_params_rule(ctx, P):
+    r = ctx.rule("EFFECT.vad-params", "vad_set_input_params changes the detector only when it accepts the values: no store to the object can be followed by an error return (the endpointer reads frame size and rate from the shared detector on every frame)", floor=3)
+    f = P.fn("vad_set_input_params", "ps_vad.c")
+    ctx.touch(f)
+    errs = set()
+    for rt in f.find("Return"):
+        if not f.ch(rt):
+            continue
+        v = f.constval(f.ch(rt)[0])
+        if v is not None and v < 0:
+            errs.add(rt)
+        elif v is None and paths.guarded(f, rt, lambda fn, cc, pol: (lambda q: q is not None and q[1] == "<" and q[2] == "0")(paths.rel(fn, cc, pol, subst=False))):
+            errs.add(rt)
+    st = [s_ for s_ in paths.stores(f) if s_["kind"] == "Member" and s_["path"].startswith(f.params[0][0] + "->")]
+    if len(st) < 3 or not errs:
+        raise AnalysisIncomplete("anchor vanished: stores / error returns of vad_set_input_params (%d / %d)" % (len(st), len(errs)))
+    for s_ in st:
+        bad = [rt for rt in errs if paths.may_reach(f, s_["node"], lambda e, rt=rt: e == rt)]
+        ctx.check(r, not bad, "vad_set_input_params:%s" % s_["path"], f.where(s_["node"]), "`%s` is written before the values are validated (an error return at line %s can follow): a refused call leaves the detector with the refused values" % (s_["path"], f.line(bad[0]) if bad else "?"))
+
+
 def run(ctx):
     P = ctx.P
+    vad_params_rule(ctx, P)
     U = P.unit(UNIT)
     fns = {f.name: f for f in P.functions(UNIT) if f.file.endswith(UNIT)}
     for f in fns.values():
